@@ -63,6 +63,16 @@ pub(crate) fn verify_membership<TC: Configuration>(
         curr_label = sibling_proof.label;
     }
 
+    // The path has to end at the root node. Labels are only bound to the hashes as children of
+    // the next layer, so without this check a proof with no sibling layers, carrying the root's
+    // own value, would verify for any label
+    if curr_label != NodeLabel::root() {
+        return Err(VerificationError::MembershipProof(format!(
+            "Membership proof for label {:?} does not end at the root",
+            proof.label
+        )));
+    }
+
     if TC::compute_root_hash_from_val(&curr_val) == root_hash {
         Ok(())
     } else {
